@@ -3,7 +3,7 @@
 S=/var/tmp/verif-scratch/${VERIF_DEV:-dev}
 /verif/sim/dev.sh test -c -o $S/worker.test . || exit 2
 mkdir -p $S/replays $S/runs
-cd $S && VERIF_PROP=$1 VERIF_SEED=${3:-1} VERIF_BUDGET_S=${2:-10} VERIF_SCRATCH=$S/runs VERIF_REPLAY_DIR=$S/replays ${VERIF_ENV:-} ./worker.test -test.run TestWorker > $S/out.jsonl 2> $S/err.txt
+cd $S && VERIF_PROP=$1 VERIF_SEED=${3:-1} VERIF_BUDGET_S=${2:-10} VERIF_SCRATCH=$S/runs VERIF_REPLAY_DIR=$S/replays env ${VERIF_ENV:-} ./worker.test -test.run TestWorker > $S/out.jsonl 2> $S/err.txt
 python3 - <<PY
 import json
 n=0;v=[];infra=[]
